@@ -113,7 +113,7 @@ theorem copyOnto_step (inv : RepS T s p F) (fuel : Nat) (hf : Fits fuel p) (src 
         by_cases he : src = dst
         · simp only [he, if_true]; exact Sim.mk inv
         · simp only [he, if_false]
-          obtain ⟨h', new, Fn, hop, U⟩ := cloneOntoAt_spec s.h inv.wf t hvt dv Ft fuel hgt hvalt hrept htF hFt (hf.getP hd)
+          obtain ⟨h', new, Fn, hop, U, _⟩ := cloneOntoAt_spec s.h inv.wf t hvt dv Ft fuel hgt hvalt hrept htF hFt (hf.getP hd)
             sa hs' sv Fs hfs hreps hFs (hf.getP hs)
           obtain ⟨p', F', hput, inv'⟩ := hk h' new sv Fn [] U
           rw [hop, hput]
